@@ -28,7 +28,8 @@ LEVEL_TEXT = (
 LEVEL_NOTE = (
     "A_4 is only known approximately for the colour-summed QCD value used here (quark 20702(2)-5171.9(2)nf+.., "
     "gluon 40880(30)-11714(2)nf+..); at four loops the gluon coefficient is NOT (C_A/C_F) A_4 (quartic Casimirs), "
-    "so the literature gluon value is used for k=4. Real N only."
+    "so the literature gluon value is used for k=4. Real N only. The recorded defect (time-like NNLO valence: -A_3) is "
+    "not excused wholesale: it is accepted only while slope and fit equal -A_3 within the tolerances of the healthy cells."
 )
 FLOOR_NONTRIVIAL = 10
 
@@ -137,6 +138,18 @@ F_PAIR = 4.0  # slope tolerance = unc + F_PAIR * S_k * ln(N1)/N1      (measured 
 F_FIT = 1e-5  # fit tolerance   = unc + F_FIT * S_k                     (measured <= 1.5e-6 S_k)
 UNC_FACTOR = 1.5  # on the quoted literature uncertainty of A_4 (central approximations)
 UNC_FACTOR_BAND = 4.0  # error-band members (variation != 0) deliberately scan A_4: measured <= 2.2 x quoted unc.
+IMAG_TOL = 1e-12  # |Im gamma| / max(1, |gamma|) at real N (measured exactly 0.0)
+
+# Recorded, not repaired defects of eko (known_findings.jsonl), PINNED to their documented wrong behaviour:
+#   (family, channel, order index) -> factor f such that the documented wrong large-N coefficient is f * A_k.
+# A failure of such a cell keeps the listed signature ".../cusp-coefficient" ONLY when the same estimator reproduces
+# f * A_k within the SAME tolerance that the healthy cells have to meet; everything else in that cell is a new defect
+# (signature ".../cusp-coefficient/beyond-known").  A cell that meets the property again (eko repaired) is an ordinary
+# healthy cell.
+KNOWN_PINS = {
+    # time-like NNLO valence: as3.gamma_nsv returns -(gamma_nsm + nf PS2)  =>  coefficient of ln N is -A_3
+    ("ut", 10200, 2): -1.0,
+}
 
 
 def evaluate(case):
@@ -160,40 +173,77 @@ def evaluate(case):
         return res
     K = len(next(iter(vals.values())))
     info = {}
-    imag = max(float(np.max(np.abs(v.imag) / np.maximum(1.0, np.abs(v)))) for v in vals.values())
+    # A_k ln N with real A_k: the values at real N are real (the only place where real N = 1e3..1e5 is evaluated)
+    imag = 0.0
+    for n, v in vals.items():
+        rel = np.abs(v.imag) / np.maximum(1.0, np.abs(v))
+        imag = max(imag, float(np.max(rel)))
+        for k in np.nonzero(~(rel <= IMAG_TOL))[0]:
+            res.fail(
+                f"{base}{variant if k == 3 else ''}/order-index={int(k)}/imaginary-part-at-real-N",
+                f"nf={nf} N={n:g}: gamma^({int(k)}) = {v[k]!r} has an imaginary part at real N",
+            )
     info["max_imag_part"] = imag
     M = np.array([[math.log(n), 1.0, math.log(n) / n, 1.0 / n] for n in FIT_N])
     G = np.array([vals[n].real for n in FIT_N])
     fit = np.linalg.solve(M, G)[0]
-    worst_p = worst_f = 0.0
+    worst_p = worst_f = 0.0  # healthy cells only
+    pin_p = pin_f = 0.0  # pinned known-defect cells: deviation from the documented wrong value
+    n_known = n_beyond = 0
     uf = UNC_FACTOR if case.get("var", 0) == 0 else UNC_FACTOR_BAND
     for k in range(K):
         a, unc, s = ref[k]
         v = variant if k == 3 else ""
         sig = f"{base}{v}/order-index={k}"
+        pin = KNOWN_PINS.get((case["family"], case["channel"], k))
+        ests = []  # (label, estimate, tolerance, message head)
         for n1, n2 in PAIRS:
             slope = (vals[n2][k].real - vals[n1][k].real) / math.log(n2 / n1)
             tol = uf * unc + F_PAIR * s * math.log(n1) / n1
-            worst_p = max(worst_p, abs(slope - a) / tol)
-            if not abs(slope - a) <= tol:
+            ests.append(("pair", slope, tol, f"[pair slope] nf={nf} N pair=({n1:g},{n2:g}): slope={slope!r}"))
+        ests.append(("fit", fit[k], uf * unc + F_FIT * s, f"[4-point asymptotic fit] nf={nf} N={FIT_N}: coefficient of ln N = {fit[k]!r}"))
+        healthy = all(abs(e - a) <= t for _l, e, t, _m in ests)
+        for label, est, tol, head in ests:
+            dev = abs(est - a)
+            if pin is None or healthy:
+                if label == "pair":
+                    worst_p = max(worst_p, dev / tol)
+                else:
+                    worst_f = max(worst_f, dev / tol)
+                    info[f"max_fit_dev_over_scale_k{k + 1}"] = dev / s
+                    if unc:
+                        info["max_A4_dev_over_quoted_unc" + ("_band" if case.get("var", 0) else "")] = dev / unc
+            if dev <= tol:
+                continue
+            msg = f"{head} literature A_{k+1}={a!r} (tol {tol:.4g})"
+            if pin is None:
+                res.fail(sig + "/cusp-coefficient", msg)
+                continue
+            # known-defect cell: does this estimator reproduce the documented wrong coefficient pin * A_k ?
+            pdev = abs(est - pin * a)
+            if label == "pair":
+                pin_p = max(pin_p, pdev / tol)
+            else:
+                pin_f = max(pin_f, pdev / tol)
+            if pdev <= tol:
+                n_known += 1
+                res.fail(sig + "/cusp-coefficient", msg + f" [recorded defect reproduced: estimate = {pin:+g} * A_{k+1} within the same tolerance]")
+            else:
+                n_beyond += 1
                 res.fail(
-                    sig + "/cusp-coefficient",
-                    f"[pair slope] nf={nf} N pair=({n1:g},{n2:g}): slope={slope!r} literature A_{k+1}={a!r} (tol {tol:.4g})",
+                    sig + "/cusp-coefficient/beyond-known",
+                    msg + f"; NOT the recorded defect either: recorded wrong value {pin:+g} * A_{k+1} = {pin * a!r}, deviation {pdev:.4g} > tol",
                 )
-        tol = uf * unc + F_FIT * s
-        worst_f = max(worst_f, abs(fit[k] - a) / tol)
-        if not abs(fit[k] - a) <= tol:
-            res.fail(
-                sig + "/cusp-coefficient",
-                f"[4-point asymptotic fit] nf={nf} N={FIT_N}: coefficient of ln N = {fit[k]!r} literature A_{k+1}={a!r} (tol {tol:.4g})",
-            )
-        info[f"max_fit_dev_over_scale_k{k + 1}"] = abs(fit[k] - a) / s
-        if unc:
-            info["max_A4_dev_over_quoted_unc" + ("_band" if case.get("var", 0) else "")] = abs(fit[k] - a) / unc
     info["max_pair_dev_over_tol"] = worst_p
     info["max_fit_dev_over_tol"] = worst_f
+    if n_known or n_beyond:
+        # kept out of the healthy maxima above (head-room of the healthy cells stays readable), but counted
+        info["max_known_defect_pin_pair_dev_over_tol"] = pin_p
+        info["max_known_defect_pin_fit_dev_over_tol"] = pin_f
+        info["known_defect_oracles"] = n_known
+        info["beyond_known_oracles"] = n_beyond
     res.info = info
-    res.outcome = f"{case['family']}/{'gg' if gluon else 'ns'}/K={K}"
+    res.outcome = f"{case['family']}/{'gg' if gluon else 'ns'}/K={K}" + ("/known-defect" if n_known or n_beyond else "")
     return res
 
 
@@ -210,13 +260,18 @@ def run(ctx):
                     cases.append({"family": "us", "channel": ch, "nf": nf, "fhmruvv": fh, "var": v})
             cases.append({"family": "ut", "channel": ch, "nf": nf})
             cases.append({"family": "ps", "channel": ch, "nf": nf})
-    ctx.run_cases(cases, evaluate)
+    results = ctx.run_cases(cases, evaluate)
+    ctx.extra["known_defect_oracles_matching_their_pin"] = int(sum((r[1][3] or {}).get("known_defect_oracles", 0) for r in results))
+    ctx.extra["oracles_failing_beyond_a_known_defect"] = int(sum((r[1][3] or {}).get("beyond_known_oracles", 0) for r in results))
     ctx.rule = (
         "complete product nf 3..5 x {ns+, ns-, ns valence, gg} x {unpolarised space-like orders 1..4 with FHMRUVV "
         f"variations 0..2 and eko's own N3LO (gg variations {'0..20' if th else '0,1,7,19'}), time-like orders 1..3, "
         "polarised orders 1..3}; per case every order component: two pair slopes on (1e3,1e4),(1e4,1e5) and one "
         "4-point solve of A lnN + B + (C lnN + D)/N on N=1e3,1e4,3e4,1e5 against the literature cusp coefficient "
-        "(gg: C_A/C_F A_k for k<=3, literature A_{g,4} for k=4)"
+        "(gg: C_A/C_F A_k for k<=3, literature A_{g,4} for k=4); every value at these real N must also be real "
+        f"(|Im| <= {IMAG_TOL:g}); cells with a recorded defect ({', '.join('/'.join(map(str, k)) for k in KNOWN_PINS)}) are "
+        "pinned: a failing estimator must reproduce the documented wrong coefficient (-A_3) within the same tolerance, "
+        "otherwise it is reported under .../beyond-known"
     )
     ctx.assumptions += [
         "cusp coefficients from MVV 2004 (A_1..A_3, exact) and MRUVV 2017/2018 (A_4 quark 20702(2)-5171.9(2)nf+195.5772nf^2+"
@@ -228,4 +283,6 @@ def run(ctx):
         "(measured <=1.5e-6), S_k = sum of |nf-coefficients| of A_k (times C_A/C_F for gg)",
         "time-like and polarised gluon-gluon entries are included (the cusp is universal)",
         "real N only; nf restricted to 3..5 as in the statement",
+        "max_pair_dev_over_tol / max_fit_dev_over_tol / max_fit_dev_over_scale_k* are taken over the cells that meet the "
+        "property; the pinned known-defect cell reports its distance from the documented wrong value under max_known_defect_pin_*",
     ]
